@@ -9,6 +9,7 @@ import time
 
 import libcheck
 import lockcheck
+import commitcheck
 import vbuild
 import vlib
 from libcheck import Workload
@@ -200,9 +201,8 @@ def check_C07(tier, seed):
         if tier == "quick":
             # (A) names incl. invalid ones and duplicates, shallow; (B) one valid name, deep (structure)
             full = ["1.6.0", "1.18.0o", "2.21.2"]
-            extra = pick_extra([s for s in vlib.ALL if s not in vlib.REPR], seed, 2)
             plan = {}
-            for s in vlib.REPR + extra:
+            for s in vlib.quick_schemas(seed, 2):
                 fam = vlib.family(s)
                 if fam == "v1":
                     plan[s] = [((4, 4) if s in full else (3, 4), N4), ((4, 6) if s in full else (4, 5), ("a",))]
@@ -252,14 +252,29 @@ def replay(prop, path):
     p = json.load(open(path))
     wd = vlib.workdir("replay_%s" % prop)
     flavour = p.get("flavour", "plain")
-    binary = vbuild.build_bin("libdriver", flavour, extra_src=["shim.cpp"])
+    if "script" not in p and p.get("program"):
+        # a statement program reported by MCContention: explore it again
+        pp = os.path.join(wd, "progs.ndjson")
+        with open(pp, "w") as fh:
+            fh.write(json.dumps({"p": p["program"]["p"]}) + "\n")
+        res = lockcheck._run(wd, "replay_mccontention", pp, "rollback")
+        if not res["ok"]:
+            log("replay: still fails:", res["errors"][:2])
+            print("VIOLATION property=%s replay=%s" % (prop, path))
+            return 1
+        log("replay: accepted")
+        return 0
+    if "script" not in p:
+        log("replay: this file carries no script (see its 'reason' and 'record')")
+        return 2
+    binary = vbuild.build_bin(p.get("driver", "libdriver"), flavour, extra_src=["shim.cpp"])
     sp = os.path.join(wd, "replay.script.ndjson")
     tp = os.path.join(wd, "replay.trace.ndjson")
     with open(sp, "w") as fh:
         for op in p["script"]:
             fh.write(json.dumps(op) + "\n")
     ev = vlib.run_driver(binary, sp, tp)
-    v = vlib.validate_trace(p.get("module", "TraceLibrary"), vlib.trace_cfg(), tp, wd, "replay", max_rejections=1)
+    v = vlib.validate_trace(p.get("module", "TraceLibrary"), p.get("cfg") or vlib.trace_cfg(), tp, wd, "replay", max_rejections=1)
     if v["rejected"] or ev:
         r = v["rejected"][0] if v["rejected"] else {}
         log("replay: still fails:", r.get("reason"), libcheck.describe(r.get("record")), ev)
@@ -410,7 +425,7 @@ def check_C16(tier, seed):
     """Observing a library never modifies it."""
     def build(wd, mc_stats):
         ws = []
-        schemas = vlib.REPR if tier == "quick" else vlib.ALL
+        schemas = vlib.quick_schemas(seed, 1) if tier == "quick" else vlib.ALL
         cache = {}
         for s in schemas:
             fam = vlib.family(s)
@@ -447,7 +462,7 @@ def check_C16(tier, seed):
                 ops += [mk("create", snap=dict(bases["min"], relative_path=["other/t3.wav"])), mk("remove", t=2), mk("remove", t=3)]
                 scripts.append(ops)
         ws = []
-        for s in (vlib.REPR if tier == "quick" else vlib.ALL):
+        for s in (vlib.quick_schemas(seed, 1) if tier == "quick" else vlib.ALL):
             ws.append(Workload(s, scripts, [], flags={"rep": True, "stale_get": True}, tag="t", origin=res["instance"]))
         return ws
 
@@ -509,7 +524,7 @@ def check_C10(tier, seed):
     def build(wd, mc_stats):
         ws = []
         cache = {}
-        schemas = vlib.REPR + pick_extra([s for s in vlib.ALL if s not in vlib.REPR], seed, 2) if tier == "quick" else vlib.ALL
+        schemas = vlib.quick_schemas(seed, 1) if tier == "quick" else vlib.ALL
         for s in schemas:
             st, sc, st2, sc2 = _std_graphs(wd, mc_stats, vlib.family(s), cache,
                                            crate_bounds=(3, 4) if tier == "quick" else (4, 4),
@@ -567,7 +582,7 @@ def check_C11(tier, seed):
     def build(wd, mc_stats):
         ws = []
         cache = {}
-        schemas = vlib.REPR + pick_extra([s for s in vlib.ALL if s not in vlib.REPR], seed, 2) if tier == "quick" else vlib.ALL
+        schemas = vlib.quick_schemas(seed, 1) if tier == "quick" else vlib.ALL
         for s in schemas:
             st, sc, st2, sc2 = _std_graphs(wd, mc_stats, vlib.family(s), cache,
                                            crate_bounds=(3, 4) if tier == "quick" else (4, 5),
@@ -605,13 +620,13 @@ def check_C14(tier, seed):
     def build(wd, mc_stats):
         ws = []
         cache = {}
-        schemas = vlib.REPR if tier == "quick" else vlib.ALL
+        schemas = vlib.quick_schemas(seed, 1) if tier == "quick" else vlib.ALL
         for s in schemas:
             st, sc, st2, sc2 = _std_graphs(wd, mc_stats, vlib.family(s), cache,
                                            crate_bounds=(3, 4) if tier == "quick" else (4, 4),
                                            mem_bounds=(3, 5, 13) if tier == "quick" else (3, 6, 14))
             r = random.Random(seed * 131 + vlib.ALL.index(s))
-            n1, n2 = (150, 150) if tier == "quick" else (len(sc), len(sc2))
+            n1, n2 = (100, 100) if tier == "quick" else (len(sc), len(sc2))
             fl = {"sweep": True, "raw": True, "stmts": True}
             ws.append(Workload(s, sc if len(sc) <= n1 else r.sample(sc, n1), libcheck.NAMES4, flags=fl, origin=st["instance"],
                                also=vlib.store_also(s) + vlib.txn_also()))
@@ -619,15 +634,25 @@ def check_C14(tier, seed):
                                also=vlib.store_also(s) + vlib.txn_also()))
             # crash points: the same histories on disk; every call is first attempted in a process that dies right before
             # its k-th statement (k = 1, 2, ...), the library is loaded again and observed (TraceLibrary: "crash" records)
-            c1, c2 = (40, 25) if tier == "quick" else (300, 200)
+            c1, c2 = (20, 12) if tier == "quick" else (300, 200)
             cf = {"crash": True, "raw": True}
             ws.append(Workload(s, sc if len(sc) <= c1 else r.sample(sc, c1), libcheck.NAMES4, mode="disk", flags=cf, tag="k", origin=st["instance"]))
             ws.append(Workload(s, sc2 if len(sc2) <= c2 else r.sample(sc2, c2), ["a", "d"], mode="disk", flags=dict(cf), tag="k", origin=st2["instance"]))
+            # crash points below the statement level: the process dies right before the n-th file-modifying system call of
+            # SQLite's VFS (journal creation, page writes, journal deletion = the commit point), n = 1, 2, ...
+            # (TraceLibrary as for statement-level crash points; TraceCommit: the files found changed are an outcome of
+            #  CommitProtocol.tla - per-file atomic, attach order, no master journal)
+            y1, y2 = (3, 2) if tier == "quick" else (80, 50)
+            yf = {"syscrash": True}
+            ws.append(Workload(s, sc if len(sc) <= y1 else r.sample(sc, y1), libcheck.NAMES4, mode="disk", flags=yf, tag="y", origin=st["instance"],
+                               also=commitcheck.also()))
+            ws.append(Workload(s, sc2 if len(sc2) <= y2 else r.sample(sc2, y2), ["a", "d"], mode="disk", flags=dict(yf), tag="y", origin=st2["instance"],
+                               also=commitcheck.also()))
             # lock sweep: the same histories on disk; every call is first attempted while another connection takes an
             # EXCLUSIVE / RESERVED / SHARED lock on the database files right before the call's k-th statement
             # (TraceLibrary: a refused call is a Failed step; TraceContention: every statement result is the one SQLite's
             # locking protocol gives, the library rolls back and is left without lock or transaction)
-            l1, l2 = (10, 6) if tier == "quick" else (250, 150)
+            l1, l2 = (6, 4) if tier == "quick" else (250, 150)
             lf = {"locks": True, "raw": True}
             ws.append(Workload(s, sc if len(sc) <= l1 else r.sample(sc, l1), libcheck.NAMES4, mode="disk", flags=lf, tag="l", origin=st["instance"],
                                also=vlib.store_also(s) + lockcheck.also()))
@@ -656,7 +681,7 @@ def check_C14(tier, seed):
             ops += [mk("update", t=1, snap=bases["edge"]), mk("update", t=2, snap=bases["full"]), mk("remove", t=1), mk("remove", t=2)]
             scripts.append(ops)
         ws = []
-        for s in (vlib.REPR if tier == "quick" else vlib.ALL):
+        for s in (vlib.quick_schemas(seed, 1) if tier == "quick" else vlib.ALL):
             ws.append(Workload(s, scripts, [], flags={"sweep": True, "stmts": True}, tag="t", origin=res["instance"], also=vlib.txn_also()))
         # lock sweep at track level (library on disk): create, one value per field setter, update, remove - each first
         # attempted while another connection holds an EXCLUSIVE / RESERVED / SHARED lock from the call's k-th statement on
@@ -676,7 +701,7 @@ def check_C14(tier, seed):
 
     import trackchecks as _tc
     return history_check(
-        "C14", tier, seed, build, post=lambda shards, wd, ms: lockcheck.model_check_programs(shards, wd, ms, tier),
+        "C14", tier, seed, build, post=lambda shards, wd, ms: lockcheck.model_check_programs(shards, wd, ms, tier) + commitcheck.post(shards, wd, ms),
         also=[{"driver": "trackdriver", "build": build_tracks, "module": "TraceTrackFields", "cfg": _tc.track_cfg()}],
         rule="fault sweep: every call of every replayed history is first attempted with its 1st, 2nd, ... k-th SQL "
              "statement failing (link-level shim returns SQLITE_IOERR from the first sqlite3_step of the k-th prepared "
